@@ -226,3 +226,264 @@ c08!(c08_hn_always, E::HalfOfNightFajrIshaAlways);
 c08!(c08_hn_inv, E::HalfOfNightFajrIshaInvalid);
 c08!(c08_min_always, E::MinutesFromMaghribFajrIshaAlways);
 c08!(c08_min_inv, E::MinutesFromMaghribFajrIshaInvalid);
+
+// =====================================================================================
+// C09 — the nearest-good-day search. test_fajr_isha is replaced by a validity ORACLE: an
+// arbitrary bit mask over day offsets -K..=K decides which candidate days are "good";
+// a good day returns a map tagged with its offset. JulianDay::sub/add are used through
+// their contract (value -/+ n; proved against chrono by c09_jd_step).
+pub const BASE_JD: f64 = 2460116.5;
+pub static mut ORACLE: u128 = 0;
+pub static mut ORACLE_K: i64 = 0;
+
+fn tag(off: i64, k: Prayer) -> f64 {
+    off as f64 + 100. * (k as usize as f64)
+}
+pub fn tfi_oracle(_p: &Params, _c: crate::geo::coordinates::Coordinates, _w: Weather, jd: JulianDay)
+    -> Option<VMap<Prayer, Result<f64, ()>>> {
+    let off = (jd.value - BASE_JD) as i64; // exact: the values differ by whole days
+    let k = unsafe { ORACLE_K };
+    if off < -k || off > k {
+        return None;
+    }
+    if (unsafe { ORACLE } >> ((off + k) as u32)) & 1 == 1 {
+        let mut h = VMap::new();
+        let mut i = 0;
+        while i < 6 {
+            h.insert(KEYS6[i], Ok(tag(off, KEYS6[i])));
+            i += 1;
+        }
+        Some(h)
+    } else {
+        None
+    }
+}
+pub fn jd_sub_contract(j: &JulianDay, days: u64) -> JulianDay {
+    JulianDay { date: j.date, gmt: j.gmt, value: j.value - days as f64 }
+}
+pub fn jd_add_contract(j: &JulianDay, days: u64) -> JulianDay {
+    JulianDay { date: j.date, gmt: j.gmt, value: j.value + days as f64 }
+}
+
+pub fn c09_contract(elm: E, k: i64) {
+    let oracle: u128 = kani::any();
+    kani::assume(oracle != 0 && (oracle >> ((2 * k + 1) as u32)) == 0); // some good day within k days
+    unsafe {
+        ORACLE = oracle;
+        ORACLE_K = k;
+    }
+    // nearest good offset, the earlier date on ties (specification, from the statement)
+    let mut best: i64 = 0;
+    let mut found = false;
+    let mut i: i64 = 0;
+    while i <= k {
+        if (oracle >> ((k - i) as u32)) & 1 == 1 {
+            best = -i;
+            found = true;
+            break;
+        }
+        if (oracle >> ((k + i) as u32)) & 1 == 1 {
+            best = i;
+            found = true;
+            break;
+        }
+        i += 1;
+    }
+    kani::assume(found);
+    let hin = any_hours();
+    let mut params = any_params(elm);
+    params.intervals.insert(Prayer::Fajr, 0.);
+    params.intervals.insert(Prayer::Isha, 0.);
+    let all = elm == E::NearestGoodDayAllPrayersAlways;
+    if !all {
+        kani::assume(hin[&Prayer::Fajr].is_err() || hin[&Prayer::Isha].is_err());
+    }
+    let mut jd = fixed_jd();
+    jd.value = BASE_JD;
+    let tad = any_tad(jd, any_coords());
+    crate::vcover!();
+    let out = adj_for_ext_lat(&params, hin, &tad, Weather::default());
+    for key in KEYS6 {
+        let replaced = all || ((key == Prayer::Fajr || key == Prayer::Isha) && hin[&key].is_err());
+        if replaced {
+            assert!(obits(&out[&key]) == Ok(tag(best, key).to_bits()), "C09 a replaced time is the conventional time of the CLOSEST good date, earlier date on ties");
+            assert!(flagged(&out[&key]), "C09 a time taken from the nearest good day is flagged extreme");
+        } else {
+            assert!(obits(&out[&key]) == bits(&hin[&key]) && !flagged(&out[&key]), "C09 times that exist (or are not named by the policy) are left as computed");
+        }
+    }
+    kani::cover!(best < 0, "VACUITY-GUARD earlier date reachable");
+    kani::cover!(best > 0, "VACUITY-GUARD later date reachable");
+}
+
+macro_rules! c09 {
+    ($name:ident, $elm:expr, $k:expr, $unwind:expr) => {
+        #[kani::proof]
+        #[kani::unwind($unwind)]
+        #[kani::stub(test_fajr_isha, tfi_oracle)]
+        #[kani::stub(crate::geo::julian_day::JulianDay::sub, jd_sub_contract)]
+        #[kani::stub(crate::geo::julian_day::JulianDay::add, jd_add_contract)]
+        pub fn $name() {
+            c09_contract($elm, $k);
+        }
+    };
+}
+c09!(c09_search_inv_k12, E::NearestGoodDayFajrIshaInvalid, 12, 15);
+c09!(c09_search_all_k12, E::NearestGoodDayAllPrayersAlways, 12, 15);
+c09!(c09_search_inv_k40, E::NearestGoodDayFajrIshaInvalid, 40, 43);
+c09!(c09_search_all_k40, E::NearestGoodDayAllPrayersAlways, 40, 43);
+
+// =====================================================================================
+// C10 — nearest-latitude recomputation: what is handed to get_hours and what is copied back
+pub fn c10_near_lat_contract(which: u8) {
+    let nl = Latitude::try_from(any_f64_in(-90., 90.)).unwrap();
+    let elm = match which {
+        0 => E::NearestLatitudeAllPrayersAlways(nl),
+        1 => E::NearestLatitudeFajrIshaAlways(nl),
+        _ => E::NearestLatitudeFajrIshaInvalid(nl),
+    };
+    let hin = any_hours();
+    let mut params = any_params(elm);
+    params.intervals.insert(Prayer::Fajr, 0.);
+    params.intervals.insert(Prayer::Isha, 0.);
+    if which == 2 {
+        kani::assume(hin[&Prayer::Fajr].is_err() || hin[&Prayer::Isha].is_err() || hin[&Prayer::Shurooq].is_err()
+            || hin[&Prayer::Asr].is_err() || hin[&Prayer::Maghrib].is_err());
+    }
+    let coords = any_coords();
+    let tad = any_tad(fixed_jd(), coords);
+    let geo = crate::geo::astro::verif_kani_child::geo_bits(&tad);
+    crate::vcover!();
+    let out = adj_for_ext_lat(&params, hin, &tad, Weather::default());
+    unsafe {
+        assert!(GH_CALLS == 1, "C10 nearest-latitude recomputes the hours exactly once");
+        assert!(GH_LAT == f64::from(nl).to_bits(), "C10 the recomputation uses the substitute latitude");
+        assert!(GH_LON == f64::from(coords.longitude).to_bits() && GH_ELEV == f64::from(coords.elevation).to_bits(), "C10 the recomputation keeps longitude and elevation");
+        assert!(GH_GEO == geo, "C10 the recomputation reuses the same day's geocentric ephemeris");
+        assert!(GH_ANG_FAJR == params.angles[&Prayer::Fajr].to_bits(), "C10 the recomputation uses the same parameters");
+    }
+    for key in [Prayer::Fajr, Prayer::Isha] {
+        let take = which != 2 || hin[&key].is_err();
+        if take && ret_of(key).is_ok() {
+            assert!(obits(&out[&key]) == ret_of(key) && flagged(&out[&key]), "C10 Fajr/Isha are exactly the substitute-latitude values, flagged extreme");
+        } else {
+            assert!(obits(&out[&key]) == bits(&hin[&key]) && !flagged(&out[&key]), "C10 a Fajr/Isha that is not replaced stays as computed");
+        }
+    }
+    for key in [Prayer::Shurooq, Prayer::Asr, Prayer::Maghrib] {
+        if which == 0 {
+            assert!(obits(&out[&key]) == ret_of(key), "C10 'all prayers' takes every time from the substitute latitude");
+            assert!(out[&key].is_err() || flagged(&out[&key]), "C10 'all prayers' flags every replaced time");
+        }
+    }
+    if which == 0 {
+        assert!(flagged(&out[&Prayer::Dhuhr]), "C10 'all prayers' flags Dhuhr");
+    }
+}
+macro_rules! c10nl {
+    ($name:ident, $w:expr) => {
+        #[kani::proof]
+        #[kani::unwind(9)]
+        #[kani::stub(crate::prayer_times::hours::get_hours, get_hours_spy)]
+        #[kani::stub(crate::geo::astro::TopAstroDay::new_coords, new_coords_spy)]
+        pub fn $name() {
+            c10_near_lat_contract($w);
+        }
+    };
+}
+c10nl!(c10_nl_all, 0);
+c10nl!(c10_nl_fi_always, 1);
+c10nl!(c10_nl_fi_inv, 2);
+
+// C10 — portion arithmetic, as bit equality with the statement's formula in IEEE arithmetic
+// (one obligation per policy; float division makes these thorough-tier)
+fn portion_contract(elm: E) {
+    let mut hin = any_hours();
+    let sh = any_f64_in(0., 24.);
+    let mg = any_f64_in(0., 24.);
+    hin.insert(Prayer::Shurooq, Ok(sh));
+    hin.insert(Prayer::Maghrib, Ok(mg));
+    let mut params = any_params(elm);
+    let always = matches!(elm, E::SeventhOfNightFajrIshaAlways | E::SeventhOfDayFajrIshaAlways | E::MinutesFromMaghribFajrIshaAlways);
+    let fi = if matches!(elm, E::MinutesFromMaghribFajrIshaAlways | E::MinutesFromMaghribFajrIshaInvalid) { any_f64_in(0., 180.) } else { 0. };
+    let ii = if matches!(elm, E::MinutesFromMaghribFajrIshaAlways | E::MinutesFromMaghribFajrIshaInvalid) { any_f64_in(0., 180.) } else { 0. };
+    params.intervals.insert(Prayer::Fajr, fi);
+    params.intervals.insert(Prayer::Isha, ii);
+    if !always {
+        kani::assume(hin[&Prayer::Fajr].is_err() || hin[&Prayer::Isha].is_err() || hin[&Prayer::Asr].is_err());
+    }
+    let tad = any_tad(fixed_jd(), any_coords());
+    crate::vcover!();
+    let out = adj_for_ext_lat(&params, hin, &tad, Weather::default());
+    let (wf, wi) = match elm {
+        E::SeventhOfNightFajrIshaAlways | E::SeventhOfNightFajrIshaInvalid => {
+            let p = (24. - (mg - sh)) / 7.;
+            (sh - p, mg + p)
+        }
+        E::SeventhOfDayFajrIshaAlways | E::SeventhOfDayFajrIshaInvalid => {
+            let p = (mg - sh) / 7.;
+            (sh - p, mg + p)
+        }
+        E::AngleBased => {
+            let night = 24. - mg + sh;
+            (sh - 1. / 60. * params.angles[&Prayer::Fajr] * night, mg + 1. / 60. * params.angles[&Prayer::Isha] * night)
+        }
+        _ => (sh - fi / 60., mg + ii / 60.), // minutes from Shurooq / Maghrib
+    };
+    for (key, want) in [(Prayer::Fajr, wf), (Prayer::Isha, wi)] {
+        let applies = always || elm == E::AngleBased || hin[&key].is_err();
+        if applies {
+            let tol_ok = match out[&key] {
+                Ok(ph) => (ph.value - want).abs() <= 1.0 / 3600.0 && ph.extreme, // 1 s (the statement allows 3 s)
+                Err(()) => false,
+            };
+            assert!(tol_ok, "C10 a replaced Fajr/Isha follows the policy's stated formula within one second and is flagged extreme");
+        }
+    }
+}
+macro_rules! c10p {
+    ($name:ident, $elm:expr) => {
+        #[kani::proof]
+        #[kani::unwind(9)]
+        #[kani::solver(kissat)]
+        pub fn $name() {
+            portion_contract($elm);
+        }
+    };
+}
+c10p!(c10_sn_always, E::SeventhOfNightFajrIshaAlways);
+c10p!(c10_sn_inv, E::SeventhOfNightFajrIshaInvalid);
+c10p!(c10_sd_always, E::SeventhOfDayFajrIshaAlways);
+c10p!(c10_sd_inv, E::SeventhOfDayFajrIshaInvalid);
+c10p!(c10_angle_based, E::AngleBased);
+c10p!(c10_min_always, E::MinutesFromMaghribFajrIshaAlways);
+c10p!(c10_min_inv, E::MinutesFromMaghribFajrIshaInvalid);
+
+/// interval definition re-applied after the policy (and with no policy): Fajr = Shurooq - i/60, Isha = Maghrib + i/60
+#[kani::proof]
+#[kani::unwind(9)]
+#[kani::solver(kissat)]
+pub fn c10_interval_definition() {
+    let mut hin = any_hours();
+    let sh = any_f64_in(0., 24.);
+    let mg = any_f64_in(0., 24.);
+    hin.insert(Prayer::Shurooq, Ok(sh));
+    hin.insert(Prayer::Maghrib, Ok(mg));
+    let elm = match kani::any::<u8>() % 4 {
+        0 => E::None,
+        1 => E::SeventhOfNightFajrIshaAlways,
+        2 => E::SeventhOfDayFajrIshaInvalid,
+        _ => E::AngleBased,
+    };
+    let mut params = any_params(elm);
+    let fi = pos_int();
+    let ii = pos_int();
+    params.intervals.insert(Prayer::Fajr, fi);
+    params.intervals.insert(Prayer::Isha, ii);
+    let tad = any_tad(fixed_jd(), any_coords());
+    crate::vcover!();
+    let out = adj_for_ext_lat(&params, hin, &tad, Weather::default());
+    let okf = match out[&Prayer::Fajr] { Ok(ph) => (ph.value - (sh - fi / 60.)).abs() <= 1.0 / 3600.0, Err(()) => false };
+    let oki = match out[&Prayer::Isha] { Ok(ph) => (ph.value - (mg + ii / 60.)).abs() <= 1.0 / 3600.0, Err(()) => false };
+    assert!(okf && oki, "C10/C12 a Fajr/Isha that the method defines by an interval keeps that definition (Shurooq - i, Maghrib + i)");
+}
